@@ -16,7 +16,7 @@ def ren(tok, m):
         return ''.join(m[ch] for ch in tok)
     return tok
 CONST = {'AB': 101, 'BC': 102, 'ABC': 103, 'XAB': 104}
-PRE = {'NoDefs': ([], []), 'PreDefs': ([('BC', '7')], ['XAB=BC + 1'])}
+PRE = {'NoDefs': ([], []), 'PreDefs': ([('BC', '7')], ['XAB=BC + 1']), 'PreNull': ([('BC', None)], [])}
 
 
 def cfg(lines, initdefs, maxlen):
@@ -38,7 +38,7 @@ def eval_hist(args):
     from bespokeasm.assembler.preprocessor import Preprocessor
     from bespokeasm.assembler.line_identifier import LineIdentifier
     isa_syms, cli = PRE[pre]
-    isa_syms = [(ren(n, m), ' '.join(ren(t, m) for t in v.split())) for n, v in isa_syms]
+    isa_syms = [(ren(n, m), None if v is None else ' '.join(ren(t, m) for t in v.split())) for n, v in isa_syms]
     cli = [ren(c.split('=')[0], m) + '=' + ' '.join(ren(t, m) for t in c.split('=')[1].split()) for c in cli]
     try:
         with runner.watchdog(5.0):
@@ -67,7 +67,10 @@ def eval_hist(args):
                         return f'use line "{text}" rejected ({str(e)[:60]}) but specification expands it to "{" ".join(outs[k])}"'
                     if last and st == 'cycle':
                         return f'use line "{text}" leads back to a symbol being expanded but was expanded to "{got}"'
-                    if got.split() != outs[k]:
+                    if any(' ' in t for t in outs[k]):
+                        if got.strip() != ' '.join(outs[k]):       # a token with blanks inside (a string): compare the text exactly
+                            return f'use line "{text}" -> "{got}", specification "{" ".join(outs[k])}"'
+                    elif got.split() != outs[k]:
                         return f'use line "{text}" -> "{got}", specification "{" ".join(outs[k])}"'
                     k += 1
     except runner.Watchdog:
@@ -92,6 +95,10 @@ def e2e_case(h, pre):
 
 def e2e(args):
     h, outs, st, pre = args
+    if any(t.startswith('"') for o in outs for t in o) and not all(len(o) == 1 for o in outs if any(t.startswith('"') for t in o)):
+        return None         # a string inside arithmetic: no end-to-end expectation
+    if st == 'run' and any(t.startswith('"') for l in h if l['k'] == 'U' for t in l['r']):
+        return None
     case = e2e_case(h, pre)
     obs = runner.run_case(case)
     if st != 'run':
@@ -103,7 +110,13 @@ def e2e(args):
     isa_syms, cli = PRE[pre]
     pre_names = {n for n, _ in isa_syms} | {c.split('=')[0] for c in cli}
     env = {n: v for n, v in CONST.items() if n not in pre_names}
-    want = bytes((eval(' '.join(o), {}, env)) & 0xFF for o in outs)   # arithmetic over the specification's token list only
+    if any(t.startswith('"') for o in outs for t in o):
+        # a use line that expands to a single string: .byte "..." emits its characters (only blanks and letters here)
+        if any('\\' in o[0] for o in outs if o[0].startswith('"')):
+            return None
+        want = b''.join((o[0][1:-1].encode() if o[0].startswith('"') else bytes([eval(' '.join(o), {}, env) & 0xFF])) for o in outs)
+    else:
+        want = bytes((eval(' '.join(o), {}, env)) & 0xFF for o in outs)   # arithmetic over the specification's token list only
     if obs['image'] != want:
         return f'end to end: image {obs["image"].hex()} expected {want.hex()}', case
     return None
@@ -123,7 +136,7 @@ def run(chk):
                 'Non-trivial = history with a use line after at least one definition.')
     chk.assumptions = ['a cyclic symbol that is never used is not required to be rejected',
                        'end-to-end expected byte = Python arithmetic over the token list the specification produced']
-    plan = [('core', 'LinesCore', 'NoDefs', 4 if quick else 5), ('core-pre', 'LinesCore', 'PreDefs', 3 if quick else 4),
+    plan = [('core', 'LinesCore', 'NoDefs', 4 if quick else 5), ('core-pre', 'LinesCore', 'PreDefs', 3 if quick else 4), ('core-null', 'LinesCore', 'PreNull', 2 if quick else 3),
             ('wide', 'LinesWide', 'NoDefs', 3 if quick else 4)]
     for tag, lines, pre, ml in plan:
         res = tlc.run_tlc('MC_Symbols', cfg(lines, pre, ml), workers=16)
@@ -147,6 +160,9 @@ def run(chk):
             chk.sample({'instance': tag, 'history': a[0], 'expanded': a[1]})
         plain = [a for a in args if not any('\\' in t for l in a[0] for t in l['r'])]     # end to end only without string tokens
         sel = rng.sample(plain, min(len(plain), 1500 if quick else 12000))
+        if pre == 'PreNull':
+            sel = []        # an empty replacement leaves no arithmetic to evaluate end to end
+        sel += [a for a in plain if any('"a  b"' in l['r'] for l in a[0]) and a[2] == 'run'][:300]
         out = runner.pmap(e2e, sel)
         for a, r in zip(sel, out):
             chk.traces += 1
